@@ -53,9 +53,9 @@ def install(R, models):
     def _dtr_decision_path(E, self_obj, X, check_input=True):
         """DecisionTreeRegressor.decision_path on an in-repo subclass instance: the fitted tree is the ghost state of tree_"""
         tree = self_obj.fields.get("tree_")
-        if not (isinstance(X, NdArr) and X.ndim == 2 and isinstance(tree, Opaque)):
+        st = tree.term if isinstance(tree, Opaque) else (tree.fields.get("$state") if isinstance(tree, Obj) else None)
+        if not (isinstance(X, NdArr) and X.ndim == 2 and st is not None):
             raise Unsupported("decision_path of %r" % (self_obj,))
-        st = tree.term
         fs = X.snapshot()
         nn = nodesF(st)
         E.assume(nn >= 1)
